@@ -288,7 +288,7 @@ def run_check(spec, tier, seed, budget_scale=1.0, out=sys.stdout):
 
     # ---- 7b. monitor the libm hypotheses used by theorems on every call the implementation made ----
     libm_mon = {'calls': 0, 'cos_zero_one': 0, 'sin_zero_zero': 0, 'cos_range': 0, 'tanh_range': 0,
-                'cos_acc_u=2^-52_on_[-8,8]': 0, 'sin_acc_u=2^-52_on_[-8,8]': 0, 'atan2_range_[-PI,PI]': 0, 'atan2_acc_u2=2^-51': 0, 'violations': []}
+                'cos_acc_u=2^-52_on_[-8,8]': 0, 'sin_acc_u=2^-52_on_[-8,8]': 0, 'atan2_range_[-PI,PI]': 0, 'atan2_acc_u2=2^-51': 0, 'acos_acc_ua=2^-51_on_[-1,1]': 0, 'violations': []}
     ONE = fb.bits(1.0)
     import mpmath as _mp
     U52 = _mp.mpf(2) ** -52
@@ -327,6 +327,11 @@ def run_check(spec, tier, seed, budget_scale=1.0, out=sys.stdout):
             elif f == 1 and a == 0:
                 libm_mon['sin_zero_zero'] += 1
                 if r_ != 0: libm_mon['violations'].append(['sin_zero_zero', a, r_])
+            elif f == 4:
+                if fa == fa and abs(fa) <= 1.0:
+                    libm_mon['acos_acc_ua=2^-51_on_[-1,1]'] += 1
+                    if not (fr == fr and abs(_mp.mpf(fr) - _mp.acos(_mp.mpf(fa))) <= 2 * U52):
+                        libm_mon['violations'].append(['acos_acc', a, r_])
             elif f == 6:
                 libm_mon['tanh_range'] += 1
                 if fa == fa and not (fr == fr and abs(fr) <= 1.0):
